@@ -21,6 +21,7 @@ def parseHex? (s : String) : Option Nat :=
     | _, _ => none) (some 0)
 
 def hexByteList? (s : String) : Option (List Nat) :=
+  if s == "-" then some [] else
   let rec go : List Char → List Nat → Option (List Nat)
     | [], acc => some acc.reverse
     | [_], _ => none
